@@ -61,7 +61,7 @@ fn word_spans(t: &[text2num::verif_hooks::BasicToken], o: &[Occ]) -> Vec<(usize,
         }
     }
     map[t.len()] = k;
-    o.iter().map(|oc| (map[oc.start.min(t.len())], map[(oc.end - 1).min(t.len())], oc.text.clone(), oc.value_bits, oc.ord)).collect()
+    o.iter().map(|oc| (map[oc.start.min(t.len())], map[oc.end.saturating_sub(1).min(t.len())], oc.text.clone(), oc.value_bits, oc.ord)).collect()
 }
 fn strip_ws(t: &[text2num::verif_hooks::BasicToken]) -> Vec<String> {
     t.iter().map(|x| x.text.chars().filter(|c| !c.is_whitespace()).collect::<String>()).filter(|x| !x.is_empty()).collect()
